@@ -1867,6 +1867,11 @@ func (c *PermanodeConstraint) permanodeMatchesAttrVals(ctx context.Context, s *s
 		return false, nil
 	}
 	if c.hasValueConstraint() {
+		if c.ValueInSet != nil {
+			// The sub-query is evaluated in the middle of this loop and may
+			// itself fill the search's scratch slice, which vals aliases.
+			vals = append([]string(nil), vals...)
+		}
 		nmatch := 0
 		for _, val := range vals {
 			match, err := c.permanodeMatchesAttrVal(ctx, s, val)
